@@ -162,7 +162,14 @@ def main(argv=None):
                     continue
                 rp = os.path.join(VERIF, f["replay"])
                 case = json.load(open(rp))
-                fails = mod.replay(Ctx(prop, args.tier, seed), case.get("case", case))
+                try:
+                    fails = mod.replay(Ctx(prop, args.tier, seed), case.get("case", case))
+                except Exception:  # noqa: the recorded history cannot be run on this tree (an earlier step of it now fails):
+                    # that is neither a reproduction nor a pass; the search below runs regardless and reports what it finds
+                    ctx.notes.append("replay of finding %s could not be executed on this tree: %s" % (
+                        f.get("signature"), traceback.format_exc().strip().splitlines()[-1][:200]))
+                    ctx.count("finding-replay-not-executable")
+                    continue
                 still = [x for x in fails if x.kind == "oracle"]
                 if f.get("status") == "known":
                     if still:
